@@ -47,6 +47,9 @@ def run(ctx):
     ctx.add_result(out)
     ctx.notes["model_divergences_not_forbidden_by_property"] = out.get("extra", {}).get("model_divergences_not_forbidden_by_property")
     ctx.notes["plans_not_applicable_to_operation"] = out.get("extra", {}).get("plans_not_applicable_to_operation")
+    # the operations built on thread.Parallelize once more with a parallelism of 1 (jobs one after the other)
+    allmode = [c for c in caselist if c["mode"] == "all"]
+    ctx.add_result(ctx.vh("faults-replay", {"cases": allmode, "parallelism": 1}, timeout=6000), kind="parallelism-1")
     out = ctx.vh("faults-atomic", {"exe": ctx.harness()}, timeout=3000)
     ctx.add_result(out)
     ctx.assumptions += [
